@@ -922,6 +922,16 @@ class SyncObj(object):
                     self.__sendNextNodeIdx(node, success=False, reset=True)
                     return
                 if prevEntries[0][2] != prevLogTerm:
+                    # The entry at prevLogIdx conflicts with the leader's log, so it and everything
+                    # after it can not be committed. Drop them right away: replies to batches that
+                    # are already in flight then report the same position instead of the old log end.
+                    if prevLogIdx > self.__raftLog[0][1]:
+                        if self.__conf.dynamicMembershipChange:
+                            for entry in reversed(prevEntries):
+                                clusterChangeRequest = self.__parseChangeClusterRequest(entry[0])
+                                if clusterChangeRequest is not None:
+                                    self.__doChangeCluster(clusterChangeRequest, reverse=True)
+                        self.__deleteEntriesFrom(prevLogIdx)
                     self.__sendNextNodeIdx(node, nextNodeIdx = prevLogIdx, success = False, reset=True)
                     return
                 nextNodeIdx = prevLogIdx + 1
